@@ -54,6 +54,12 @@ class EscapeOfHEProducts(ExactSolver):
 
         # check for illegal input values
 
+        if self.geometry != 1:
+            raise ValueError('geometry must be 1 (axial)')
+
+        if self.gamma != 3:
+            raise ValueError('adiabatic index gamma must be 3')
+
         if self.D <= 0:
             raise ValueError('Detonation velocity must be > 0')
 
